@@ -7,8 +7,10 @@
   Documents are family graphs: a list of INDI and FAM records.  An INDI has SEX lines and event
   nodes (BIRT, BAPM, BAPL, DEAT, BURI, anything else) with their DATE children in file order; a FAM
   has its first HUSB and first WIFE pointer, its CHIL pointers in file order and event nodes
-  (MARR, anything else).  A DATE is either an exact calendar day (`ok`) or a value that does not
-  parse (`bad`, a zero date with a parse error); the label of a bad date only identifies it.
+  (MARR, anything else).  A DATE is what `NewDateRangeWithString` makes of its value (C04's
+  `parseDateRange`, applied by the driver): one exact calendar day (`ok`), nothing at all (`bad`,
+  two zero dates with a parse error) or anything else (`gen`: approximate / before / after, month
+  or year precision, ranges, half-parsed ranges); the label only identifies the DATE node.
 
   Modelled as coded: the pre-order walk (a record's own warnings, then those of its DATE
   descendants), `Birth()` = first DATE of the first dated BIRT, `EstimatedBirthDate/DeathDate` =
@@ -20,14 +22,21 @@
   `time.Now()` (explicit input).  Constants come from `Generated.Warnings`.
 -/
 import Gedcom.Model.Compare
+import Gedcom.Model.DateParse
 import Gedcom.Generated.Warnings
 namespace Gedcom.Warn
 open Gedcom
 
-/-- a DATE value: an exact day, or unparsable (the label only identifies the node) -/
+/-- a DATE value after `NewDateRangeWithString` (C04's `parseDateRange`):
+    * `ok d`      — one exact calendar day: both ends are `d`, constraint exact, no parse error;
+    * `bad l`     — nothing parsed: both ends are zero dates carrying a parse error;
+    * `gen l s e` — everything else: About/Before/After, month or year precision, ranges,
+                    half-parsed ranges, years 0 or above 9999 (`s`, `e` the parsed ends).
+    The label only identifies the DATE node (its position in the document). -/
 inductive DateV
   | ok (d : Date)
   | bad (label : Nat)
+  | gen (label : Nat) (s e : PDate)
 deriving DecidableEq, Repr, Inhabited
 
 inductive EvKind | birt | bapm | bapl | deat | buri | marr | other
@@ -71,7 +80,7 @@ inductive Warning
   | marriedOutOfRange (fam spouse : Nat) (old : Bool) (k : Nat)
   | individualTooOld (indi : Nat)
   /-- "the `k2` (`d2`) was before the `k1` (`d1`)" -/
-  | incorrectEventOrder (indi : Nat) (k2 : EvKind) (d2 : Date) (k1 : EvKind) (d1 : Date)
+  | incorrectEventOrder (indi : Nat) (k2 : EvKind) (d2 : DateV) (k1 : EvKind) (d1 : DateV)
   | unparsableDate (inFam : Bool) (ptr : Nat) (label : Nat)
   | multipleSexes (indi : Nat) (n : Nat)
   | inverseSpouses (fam husb wife : Nat)
@@ -90,22 +99,55 @@ def eventsOf (k : EvKind) (evs : List Ev) : List Ev := evs.filter (fun e => e.ki
 /-- `Dates(nodes...)`: all DATE children of the given event nodes, valid or not -/
 def datesOf (evs : List Ev) : List DateV := evs.flatMap (·.dates)
 
+/-- `DateRange.IsValid`: neither end is the zero date -/
 def DateV.valid : DateV → Bool
   | .ok _ => true
   | .bad _ => false
+  | .gen _ s e => !s.isZero && !e.isZero
+
+def DateV.label : DateV → Nat
+  | .ok _ => 0
+  | .bad l => l
+  | .gen l _ _ => l
 
 /-- `(*DateNode).IsValid`, nil-safe -/
 def validO : Option DateV → Bool
   | some x => x.valid
   | none => false
 
-/-- `a.Years() < b.Years()` where an absent or unparsable date has `Years() = 0` and an exact
-    day has a positive value -/
+/-- `StartDate().Years()` as numerator and positive denominator; zero for an absent or
+    unparsable date (`Date.Years()` is never negative) -/
+def startFrac : Option DateV → Int × Int
+  | some (.ok d) => ((d.year : Int) * d.yearsDen + d.yearsNum, d.yearsDen)
+  | some (.gen _ s _) => s.yearsFrac
+  | _ => (0, 1)
+
+/-- `EndDate().Years()` -/
+def endFrac : Option DateV → Int × Int
+  | some (.ok d) => ((d.year : Int) * d.yearsDen + d.yearsNum, d.yearsDen)
+  | some (.gen _ _ e) => e.yearsFrac
+  | _ => (0, 1)
+
+def fracLt (a b : Int × Int) : Bool := decide (a.1 * b.2 < b.1 * a.2)
+
+/-- `a.StartDate().Years() < b.StartDate().Years()` (`DateRange.IsBefore`, `Minimum()`): nothing
+    is before an absent or unparsable date (`Years() = 0`), which is before every exact day -/
 def yearsLtV : Option DateV → Option DateV → Bool
+  | _, none => false
+  | _, some (.bad _) => false
   | some (.ok x), some (.ok y) => x.isBefore y
-  | some (.ok _), _ => false
-  | _, some (.ok _) => true
-  | _, _ => false
+  | none, some (.ok _) => true
+  | some (.bad _), some (.ok _) => true
+  | a, b => fracLt (startFrac a) (startFrac b)
+
+/-- `a.EndDate().Years() < b.EndDate().Years()` (`DateRange.IsAfter`, `Maximum()`) -/
+def yearsLtE : Option DateV → Option DateV → Bool
+  | _, none => false
+  | _, some (.bad _) => false
+  | some (.ok x), some (.ok y) => x.isBefore y
+  | none, some (.ok _) => true
+  | some (.bad _), some (.ok _) => true
+  | a, b => fracLt (endFrac a) (endFrac b)
 
 /-- `DateNodes.Minimum()` -/
 def minimumV : List DateV → Option DateV
@@ -115,7 +157,7 @@ def minimumV : List DateV → Option DateV
 /-- `DateNodes.Maximum()` -/
 def maximumV : List DateV → Option DateV
   | [] => none
-  | x :: rest => some (rest.foldl (fun m y => if yearsLtV (some m) (some y) then y else m) x)
+  | x :: rest => some (rest.foldl (fun m y => if yearsLtE (some m) (some y) then y else m) x)
 
 /-- `IndividualNode.Birth()`: `DateAndPlace` over the birth nodes -/
 def birthOf (i : Option Indi) : Option DateV :=
@@ -140,14 +182,19 @@ def estDeath (i : Indi) : Option DateV :=
 /-- `time.Time{}`: 00:00 on 1 Jan 0001 -/
 def zeroTime : Int := nsPerDay
 
+/-- `Date.Time()` is not the zero time: the year is 1..9999 (`time.Parse` of `%04d`) -/
+def timeOK (d : PDate) : Bool := decide (1 ≤ d.year) && decide (d.year ≤ 9999)
+
 /-- `StartDate().Time()`; an absent or unparsable date gives the zero time -/
 def startI : Option DateV → Int
   | some (.ok d) => d.startInstant
+  | some (.gen _ s _) => if timeOK s then s.toDate.startInstant else zeroTime
   | _ => zeroTime
 
 /-- `EndDate().Time()` -/
 def endI : Option DateV → Int
   | some (.ok d) => d.endInstant
+  | some (.gen _ _ e) => if timeOK e then e.toDate.endInstant else zeroTime
   | _ => zeroTime
 
 def maxDur : Int := 9223372036854775807
@@ -190,8 +237,8 @@ def pairsHas (pairs : List (Nat × Nat)) (a b : Nat) : Bool :=
 /-- `DateNode.Sub` returns an error when either date carries a parse error (an absent date
     does not) -/
 def subErr (b1 b2 : Option DateV) : Bool :=
-  (match b1 with | some (.bad _) => true | _ => false) ||
-  (match b2 with | some (.bad _) => true | _ => false)
+  (match b1 with | some (.bad _) => true | some (.gen _ s e) => s.parseError || e.parseError | _ => false) ||
+  (match b2 with | some (.bad _) => true | some (.gen _ s e) => s.parseError || e.parseError | _ => false)
 
 /-- the body of the inner loop up to the pair set: is `(c1, c2)` reported?  Each conjunct is the
     negation of one `continue` of the code, in the code's order. -/
@@ -233,15 +280,15 @@ deriving Repr, Inhabited
 
 def unknownAges : Ages := ⟨false, 0, 0, .unknown⟩
 
-/-- `IndividualNode.ageAt(at)` for `at = [atS, atE]` -/
-def ageAt (i : Indi) (atS atE : Date) : Ages :=
+/-- `IndividualNode.ageAt(at)` for `at = [atS.StartDate(), atE.EndDate()]` -/
+def ageAt (i : Indi) (atS atE : DateV) : Ages :=
   let eb := estBirth i
   if !validO eb then unknownAges else
   let ed := estDeath i
-  let s := dateSub atS.startInstant (startI eb)
-  let e := dateSub atE.endInstant (endI eb)
-  let c := if yearsLtV (some (.ok atS)) eb then AgeC.beforeBirth
-           else if yearsLtV ed (some (.ok atE)) && ed.isSome then AgeC.afterDeath
+  let s := dateSub (startI (some atS)) (startI eb)
+  let e := dateSub (endI (some atE)) (endI eb)
+  let c := if yearsLtV (some atS) eb then AgeC.beforeBirth
+           else if yearsLtE ed (some atE) && ed.isSome then AgeC.afterDeath
            else AgeC.living
   if s > e then ⟨true, e, s, c⟩ else ⟨true, s, e, c⟩
 
@@ -249,7 +296,7 @@ def ageAt (i : Indi) (atS atE : Date) : Ages :=
 def ageAtEvent (i : Indi) (e : Ev) : Ages :=
   let ds := e.dates.filter DateV.valid
   match minimumV ds, maximumV ds with
-  | some (.ok a), some (.ok b) => ageAt i a b
+  | some a, some b => ageAt i a b
   | _, _ => unknownAges
 
 /-- `appendMarriedOutOfRange`: `Age.Years()` is `ns / Year` -/
@@ -285,9 +332,8 @@ def inverseSpouses (d : Doc) (f : Fam) : List Warning :=
 
 /-- `DateNode.Warnings` for every DATE below the record, in file order -/
 def unparsable (inFam : Bool) (ptr : Nat) (evs : List Ev) : List Warning :=
-  (datesOf evs).flatMap fun
-    | .bad l => [Warning.unparsableDate inFam ptr l]
-    | .ok _ => []
+  (datesOf evs).flatMap fun x =>
+    if x.valid then [] else [Warning.unparsableDate inFam ptr x.label]
 
 def famOwn (d : Doc) (f : Fam) : List Warning :=
   childrenBornBeforeParents d f ++ siblingsBornTooClose d f ++ marriedOutOfRange d f ++
@@ -302,13 +348,21 @@ def orderGroups : List (List EvKind) := [[.birt], [.bapm, .bapl], [.deat], [.bur
 def groupEvents (i : Indi) (tags : List EvKind) : List (EvKind × DateV) :=
   tags.flatMap fun t => (eventsOf t i.events).flatMap fun e => e.dates.map fun dt => (t, dt)
 
+/-- `Time().Truncate(24h)` of the two ends, as day numbers -/
+def dayS (x : DateV) : Int := startI (some x) / nsPerDay
+def dayE (x : DateV) : Int := endI (some x) / nsPerDay
+
 def orderPair (ptr : Nat) (ev fut : EvKind × DateV) : List Warning :=
   match ev.2, fut.2 with
   | .ok d1, .ok d2 =>
     if compareDates d2 d2 d1 d1 = .entirelyBefore then
-      [Warning.incorrectEventOrder ptr fut.1 d2 ev.1 d1]
+      [Warning.incorrectEventOrder ptr fut.1 (.ok d2) ev.1 (.ok d1)]
     else []
-  | _, _ => []
+  | a, b =>
+    if a.valid && b.valid &&
+        decide (compare (dayS b) (dayE b) (dayS a) (dayE a) = .entirelyBefore) then
+      [Warning.incorrectEventOrder ptr fut.1 b ev.1 a]
+    else []
 
 def orderFrom (ptr : Nat) : List (List (EvKind × DateV)) → List Warning
   | [] => []
@@ -322,6 +376,8 @@ def incorrectEventOrder (i : Indi) : List Warning :=
 /-- `Years()` as numerator and (positive) denominator; zero for absent / unparsable -/
 def yearsFrac : Option DateV → Int × Int
   | some (.ok d) => ((d.year : Int) * d.yearsDen + d.yearsNum, d.yearsDen)
+  | some (.gen _ s e) =>   -- `DateRange.Years()`: the mean of both ends
+    (s.yearsFrac.1 * e.yearsFrac.2 + e.yearsFrac.1 * s.yearsFrac.2, 2 * (s.yearsFrac.2 * e.yearsFrac.2))
   | _ => (0, 1)
 
 /-- division rounding towards zero (float64 → int64 conversion), for a positive divisor -/
@@ -329,7 +385,7 @@ def truncDiv (a b : Int) : Int := if a ≥ 0 then a / b else -((-a) / b)
 
 /-- `IndividualNode.Age()`: as `ageAt(now)`, trimmed back to the death date -/
 def ageNow (i : Indi) (now : Date) : Ages :=
-  let a := ageAt i now now
+  let a := ageAt i (.ok now) (.ok now)
   if a.c = .afterDeath then
     let ed := yearsFrac (estDeath i)
     let eb := yearsFrac (estBirth i)
